@@ -64,6 +64,9 @@ package ice
 //@   site call validateNonSTUNTraffic#1 ghost known := result1
 //@   site call Write#1 assert reader-never-gets-stun: !stunLike
 //@   site call Write#1 assert only-from-known-remote-candidates: known && arg1 == buf
+//@   ghostvar delivered bool = false
+//@   site call Write#1 ghost delivered := result1 == nil
+//@   site call UpdatePacketReceived#1 assert counts-only-bytes-the-readers-buffer-accepted: delivered
 //@   site call UpdatePacketReceived#1 assert counts-delivered-bytes: arg1 == n && n > 0
 
 //@ func (*Agent).validateNonSTUNTraffic
